@@ -743,9 +743,17 @@ fn make_indent(indent: usize) -> String {
 /// Statements are separated by line breaks, but an expression continues on the next line when
 /// that line starts with a binary operator. A statement whose text starts with `-` (a negation)
 /// would therefore be read as a subtraction from the statement before it; unless it is the
-/// first statement it is kept in parentheses.
+/// first statement it is kept in parentheses. The same holds for a statement that starts with
+/// a variable named `via`, `into` or `where` followed by a blank: those words are operators
+/// when something follows them.
 pub fn protect_leading_minus(formatted: String, is_first: bool) -> String {
-    if !is_first && formatted.starts_with('-') {
+    let starts_with_word_operator = ["via", "into", "where"].iter().any(|word| {
+        formatted
+            .strip_prefix(word)
+            .is_some_and(|rest| rest.starts_with([' ', '\t']))
+    });
+
+    if !is_first && (formatted.starts_with('-') || starts_with_word_operator) {
         format!("({})", formatted)
     } else {
         formatted
